@@ -50,6 +50,7 @@ type desc struct {
 	URL        hlib.B `json:"url,omitempty"`
 	Hdrs       []hdrD `json:"hdrs,omitempty"`
 	DN         bool   `json:"dn,omitempty"` // req.Header.DisableNormalizing()
+	ReNorm     bool   `json:"renorm,omitempty"` // with DN: req.Header.EnableNormalizing() again after the headers were set
 	Body       hlib.B `json:"body,omitempty"`
 	Stream     bool   `json:"stream,omitempty"` // SetBodyStream(reader, -1)
 	NoPathNorm bool   `json:"nopathnorm,omitempty"`
@@ -311,6 +312,9 @@ func runCase(d desc) hlib.Case {
 				req.Header.SetBytesKV(h.K, h.V)
 			}
 		}
+		if d.DN && d.ReNorm {
+			req.Header.EnableNormalizing()
+		}
 		req.SetRequestURIBytes(d.URL)
 		if d.Stream {
 			req.SetBodyStream(bytes.NewReader(d.Body), -1)
@@ -335,13 +339,6 @@ func runCase(d desc) hlib.Case {
 		url0 = req.URI().String() // what Client.DoRedirects passes to doRequestFollowRedirects
 		maxr = hlib.Some(hlib.Z(int64(d.MaxRed)))
 		panicked = hlib.Protect(func() { err = c.DoRedirects(req, resp, d.MaxRed) })
-		if d.DN {
-			for _, h := range d.Hdrs {
-				if isCredName(h.K) {
-					key = "disable-normalizing-header-case"
-				}
-			}
-		}
 	case "get":
 		url0, method = string(d.URL), "GET"
 		panicked = hlib.Protect(func() { _, _, err = c.Get(nil, url0) })
@@ -406,12 +403,6 @@ func runCase(d desc) hlib.Case {
 		}
 		answers[i] = hlib.App("Ans", hlib.Z(int64(a.St)), hlib.Hex(loc), hlib.Hex(rhost), hlib.Bool(ok))
 		pattern += strconv.Itoa(a.St) + ","
-		if nonASCII(loc) {
-			key = "unicode-fold-host"
-		}
-	}
-	if nonASCII(d.URL) {
-		key = "unicode-fold-host"
 	}
 
 	nw.mu.Lock()
@@ -442,9 +433,9 @@ func runCase(d desc) hlib.Case {
 		stream = hlib.Some(hlib.Z(int64(streamLen)))
 	}
 	coq := hlib.App("CRun", maxr, hlib.HexS(url0), hlib.Hex(host0), hlib.Bool(ok0), optBytes(uinfo0),
-		hlib.HexS(method), hlib.Bool(d.DN), coqPairs(hdrs), hlib.Bool(ct), hlib.Z(int64(cl)), hlib.Bool(clb),
+		hlib.HexS(method), hlib.Bool(d.DN && !d.ReNorm), coqPairs(hdrs), hlib.Bool(ct), hlib.Z(int64(cl)), hlib.Bool(clb),
 		hlib.Z(int64(bodyLen)), stream, hlib.List(answers), hlib.List(hops), hlib.N(uint64(ires)))
-	sig := fmt.Sprintf("%s/%s/%s/r%d/%s/dn%v/st%v", d.API, method, pattern, ires, trustPat, d.DN, d.Stream)
+	sig := fmt.Sprintf("%s/%s/%s/r%d/%s/dn%v%v/st%v", d.API, method, pattern, ires, trustPat, d.DN, d.ReNorm, d.Stream)
 	return hlib.Case{Coq: coq, Key: key, Sig: sig, Kind: "run-" + d.API + "-res" + strconv.Itoa(ires) + "-hops" + strconv.Itoa(nhops), Size: len(d.URL) + len(d.Chain)*16}
 }
 
@@ -455,9 +446,6 @@ func run(d desc) hlib.Case {
 	case "issub":
 		r := fasthttp.VerifIsDomainOrSubdomainBytes(d.A, d.B)
 		k := ""
-		if nonASCII(d.A) || nonASCII(d.B) {
-			k = "unicode-fold-host"
-		}
 		return hlib.Case{Coq: hlib.App("CIsSub", hlib.Hex(d.A), hlib.Hex(d.B), hlib.Bool(r)), Key: k,
 			Sig: fmt.Sprintf("issub-%v-%d-%d", r, len(d.A)-len(d.B), len(d.B)), Kind: "issub-" + hlib.Bool(r), Size: len(d.A) + len(d.B)}
 	case "hosturl":
@@ -471,9 +459,6 @@ func run(d desc) hlib.Case {
 	case "should":
 		r := fasthttp.VerifShouldStripSensitiveHeadersOnRedirect(d.A, d.B)
 		k := ""
-		if nonASCII(d.A) || nonASCII(d.B) {
-			k = "unicode-fold-host"
-		}
 		return hlib.Case{Coq: hlib.App("CShould", hlib.Hex(d.A), hlib.Hex(d.B), hlib.Bool(r)), Key: k,
 			Sig: fmt.Sprintf("should-%v-%d-%d", r, len(d.A), len(d.B)), Kind: "should-" + hlib.Bool(r), Size: len(d.A) + len(d.B)}
 	}
@@ -687,6 +672,7 @@ func genRun(r *rand.Rand) desc {
 		d.MaxRed = hlib.Pick(r, []int{0, 1, 2, 3, 4, 5, 5, 5, 16, -1})
 		d.Method = hlib.Pick(r, []string{"GET", "GET", "POST", "POST", "PUT", "HEAD", "DELETE", "PATCH"})
 		d.DN = r.Intn(6) == 0
+		d.ReNorm = d.DN && r.Intn(5) == 0
 		// credentials: usually all six plus a harmless header, sometimes a subset / duplicates / odd spellings
 		switch r.Intn(6) {
 		case 0:
@@ -793,7 +779,7 @@ func corpus() []desc {
 	c = append(c, std("http://a.com/", redirectsTo("http://evil.com/", "http://a.com/", "http://sub.a.com/", "http://evil.com/", "//a.com/")))
 	c = append(c, std("http://[::1]:8080/", redirectsTo("http://[::1]/", "http://[::2]/", "http://[::1]:9/")))
 	c = append(c, std("http://A.com:8080/p", redirectsTo("http://a.COM:9/", "http://b.a.com./")))
-	// known finding: Unicode folding in the trust rule
+	// repaired finding (must stay repaired): Unicode folding in the trust rule
 	c = append(c, std("http://ask.com/", redirectsTo("http://a\xc5\xbfk.com/x")))
 	c = append(c, std("http://ask.com/", redirectsTo("http://as\xe2\x84\xaa.com/x")))
 	c = append(c, std("http://ask.com/", redirectsTo("http://sub.a\xc5\xbfk.com/x", "http://ask.com/")))
@@ -801,7 +787,7 @@ func corpus() []desc {
 	c = append(c, desc{Op: "issub", A: []byte("x.as\xe2\x84\xaa.com"), B: []byte("ask.com")})
 	c = append(c, desc{Op: "issub", A: []byte("\xc3\x89.com"), B: []byte("\xc3\xa9.com")})
 	c = append(c, desc{Op: "should", A: []byte("ask.com"), B: []byte("a\xc5\xbfk.com:80")})
-	// known finding: DisableNormalizing keeps credential headers spelled differently from the canonical names
+	// repaired finding (must stay repaired): DisableNormalizing kept credential headers spelled differently from the canonical names
 	dnc := desc{Op: "run", API: "redirects", MaxRed: 5, Method: "GET", URL: []byte("http://a.com/"), DN: true, Chain: redirectsTo("http://evil.com/x")}
 	for _, n := range sensHdrs {
 		dnc.Hdrs = append(dnc.Hdrs, hdrD{K: []byte(strings.ToLower(n)), V: []byte("c=" + strings.ToLower(n[:2]))})
@@ -810,6 +796,10 @@ func corpus() []desc {
 	dnc2 := dnc
 	dnc2.Hdrs = allCreds() // canonical spellings under DisableNormalizing are removed
 	c = append(c, dnc2)
+	// repaired finding (must stay repaired): the same headers, but normalizing switched on again before the call
+	dnc3 := dnc
+	dnc3.ReNorm = true
+	c = append(c, dnc3)
 	// empty trusted host corner (repaired): helpers on empty parents
 	for _, s := range []string{"", "evil.com.", ".", "a.com"} {
 		c = append(c, desc{Op: "issub", A: []byte(s), B: nil}, desc{Op: "should", A: nil, B: []byte(s)})
